@@ -296,3 +296,56 @@ def corpus():
           "path_kind": "proportional", "path": [[0.0008 * k, -0.0003 * k, -0.0002 * k, 0.0002 * k, 0.0, 0.0001 * k] for k in (1, 2, 3)],
           "fd_steps": [2], "fd_h": 1.2e-6, "compare_solver": False}
     return [c1, c2]
+
+
+def make_batches(rng, n):
+    """Fields of several elements x Gauss points in ONE Integrate call, mixing an unstrained point,
+    elastic and plastic points, tension and compression (sign-uniform fields included: all
+    compressive / all tensile), in plane stress, plane strain and 3-D, with and without internal
+    variables.  A second call continues from the state of the first (non-virgin history)."""
+    out = []
+    kinds = ["compressive", "tensile", "mixed", "graded-compression", "graded-tension"]
+    for i in range(n):
+        mode = ["PS", "PE", "3D", "PS"][i % 4]
+        fam = i % 6
+        if fam == 0:
+            combo = ("none", "none", "none", "none", 0, mode, ELASTICS[(i // 6) % 3])
+        elif fam == 1:
+            combo = ("VonMises", "Linear", "none", "none", 0, mode, "iso")
+        elif fam == 2:
+            combo = (rng.choice(["Hill", "VonMises"]), rng.choice(HARDS), "none", "none", 0, mode, rng.choice(ELASTICS))
+        elif fam == 3:
+            combo = (rng.choice(["VonMises", "DruckerPrager"]), rng.choice(HARDS), rng.choice(["Prager", "AF"]), "none", 0, mode, "iso")
+        elif fam == 4:
+            combo = ("none", "none", "none", "none", rng.choice([1, 2]), mode, "iso")
+        else:
+            combo = (rng.choice(["VonMises", "Hill"]), "Linear", "none", rng.choice(["Norton1", "NortonN"]), 0, mode, "iso")
+        cfg = gen_config(rng, combo)
+        nn = 6 if mode == "3D" else 3
+        Ne, nPg = rng.choice([(1, 4), (2, 3), (3, 2), (1, 6)])
+        kind = kinds[i % len(kinds)]
+        ey = cfg["eps_y"]
+        base = unit_dir(rng, nn)
+        if nn == 3:
+            base = [abs(base[0]) + 0.2, 0.5 * abs(base[1]), 0.3 * base[2]]      # normal strains of one sign
+        else:
+            base = [abs(base[0]) + 0.2, 0.5 * abs(base[1]), 0.5 * abs(base[2]), 0.3 * base[3], 0.3 * base[4], 0.3 * base[5]]
+        field = []
+        npts = Ne * nPg
+        for j in range(npts):
+            if j == 0:
+                v = [0.0] * nn                                         # an unstrained point
+            else:
+                if kind.startswith("graded"):
+                    a = ey * 6.0 * j / (npts - 1)
+                else:
+                    a = ey * rng.choice([0.05, 0.3, 0.8, 1.5, 3.0, 6.0])
+                sgn = {"compressive": -1.0, "tensile": 1.0, "graded-compression": -1.0, "graded-tension": 1.0}.get(kind, rng.choice([-1.0, 1.0]))
+                jit = [1.0 + 0.3 * rng.uniform(-1, 1) for _ in range(nn)] if not kind.startswith("graded") else [1.0] * nn
+                v = [sgn * a * b * t for b, t in zip(base, jit)]
+            field.append([float(x) for x in v])
+        f1 = [field[e * nPg:(e + 1) * nPg] for e in range(Ne)]
+        f2 = [[[x * rng.choice([1.4, 0.6, -0.5]) for x in pt] for pt in el] for el in f1]
+        cfg.update(id="bat%02d-%s-%s-%dx%d" % (i, "/".join(str(x) for x in combo), kind, Ne, nPg), combo=list(combo), fields=[f1, f2], field_kind=kind)
+        out.append(cfg)
+    return out
